@@ -96,7 +96,9 @@ func runC47(p *core.Prog, r *core.Report) {
 	r1 := r.Rule("C47.R1", "Shard.setEpochEventHandler: DeleteContainer is dominated by payments enabled, payment check ok, unpaidSince >= 0 and (epoch - unpaidSince) >= grace (>= 3)", 4)
 	core.CheckEffectsFn(p, r1, fn, core.EffectRule{Min: 1, Guards: guards, Derived: der,
 		Effect: core.CallTo("(*pkg/local_object_storage/shard.Shard).DeleteContainer", "(*pkg/local_object_storage/shard.Shard).InhumeContainer", "(*pkg/local_object_storage/metabase.DB).InhumeContainer"),
-		Need:   func(string) []string { return []string{"payments-enabled", "payment-check-ok", "unpaid-since-nonneg", "grace-period-elapsed"} }})
+		Need: func(string) []string {
+			return []string{"payments-enabled", "payment-check-ok", "unpaid-since-nonneg", "grace-period-elapsed"}
+		}})
 	r2 := r.Rule("C47.R2", "the unsigned subtraction epoch - unpaidSince is dominated by epoch >= unpaidSince (no wrap-around for marks newer than the processed epoch)", 1)
 	core.CheckEffectsFn(p, r2, fn, core.EffectRule{Min: 1, Guards: guards, Derived: der,
 		Effect: func(p *core.Prog, in ssa.Instruction) (string, bool) {
